@@ -72,15 +72,17 @@ func (c *ColDateTime64) Infer(t ColumnType) error {
 	if !p.Valid() {
 		return errors.Errorf("precision %d is invalid", n)
 	}
-	c.Precision = p
-	c.PrecisionSet = true
+	var loc *time.Location
 	if hasloc {
-		loc, err := time.LoadLocation(locStr)
-		if err != nil {
+		// A type without a time zone leaves no zone of an earlier type behind
+		// (as ColDateTime.Infer does).
+		if loc, err = time.LoadLocation(locStr); err != nil {
 			return errors.Wrap(err, "invalid location")
 		}
-		c.Location = loc
 	}
+	c.Precision = p
+	c.PrecisionSet = true
+	c.Location = loc
 	return nil
 }
 
